@@ -78,7 +78,7 @@ def run(prop, tier, seed, replay=None):
             lines = []
             for _ in range(rng.randint(1, 3)):
                 lhs = ' '.join(rng.choice(WORDS) for _ in range(rng.randint(1, 3)))
-                rhs = ' '.join(rng.choice(WORDS + ['xyz', '']) for _ in range(rng.randint(0, 3)))
+                rhs = ' '.join(rng.choice(WORDS + ['xyz', '', '\\euro', 'A\\\\B', '\\1', '\\g<0>', '\\n']) for _ in range(rng.randint(0, 3)))
                 lines.append(lhs + ' & ' + rhs + (' # c' if rng.random() < 0.1 else ''))
             cases.append(dict(id=len(cases), txt=chars.enc(txt), pos=pos, lines=[chars.enc(l) for l in lines]))
     recs = c.drive(cases, drive)
